@@ -8,7 +8,6 @@
 import json
 import os
 import sys
-from json import JSONDecodeError
 from typing import Dict
 from typing import List
 
@@ -144,7 +143,8 @@ def run_server(kconfig, sdkconfig, sdkconfig_rename, default_version=MAX_PROTOCO
             break
         try:
             req = json.loads(line)
-        except JSONDecodeError as e:
+        except ValueError as e:
+            # JSONDecodeError, or the interpreter's refusal to convert an absurdly long integer literal
             response = {
                 "version": default_version,
                 "error": [f"JSON formatting error: {e}"],
